@@ -152,6 +152,7 @@ def main(argv=None):
     ap.add_argument("prop")
     ap.add_argument("--tier", default=os.environ.get("VERIF_TIER", "quick"))
     ap.add_argument("--replay")
+    ap.add_argument("--record-ledger", action="store_true", help="(development) record the discharged obligations of the unchanged tree")
     a = ap.parse_args(argv)
     seed = int(os.environ.get("VERIF_SEED", "0") or 0)
     os.environ.setdefault("PYVC_WORK", replay.workdir())
@@ -160,7 +161,7 @@ def main(argv=None):
     if a.replay:
         return props.replay(a.prop, a.replay)
     rep = props.run(a.prop, a.tier, seed)
-    return rep.finish()
+    return rep.finish(record_ledger=a.record_ledger)
 
 
 if __name__ == "__main__":
@@ -321,4 +322,179 @@ def param_property(prop, tier, seed):
                    "deterministic, idempotent, never returns an Argument (proved for each of the ten classes = induction on the parameter structure)",
                    "class invariants of parameter objects: is_fuzzy in {None, True, False}; output_type is None or a Parameter; value_type is a Parameter"]
     param_part(rep, prop, tier, seed)
+    return rep
+
+
+# =========================================================================== C01 / C14: heap-level contracts
+def _verify_heap(args):
+    which, root = args
+    from . import heapprops, smt
+    from .engine import Engine
+    from .values import Unsupported
+
+    t0 = time.time()
+    repo = Repo(root)
+    registry.load(repo)
+    eng = Engine(repo, S.CONTRACTS, S.LOOPS)
+    keys = {"run": "mpilot/commands.py::Command.run", "result": "mpilot/commands.py::Command.result",
+            "validate": "mpilot/commands.py::Command.validate_params", "program": "mpilot/program.py::Program.run",
+            "rerun": "mpilot/program.py::Program.run"}
+    out = {"command": which, "records": [], "error": None, "unsupported": None,
+           "function": repo.func(keys[which]).describe() if repo.has_func(keys[which]) else None}
+    try:
+        if which in ("run", "result"):
+            heapprops.verify_command_run(eng, which)
+        elif which == "validate":
+            heapprops.verify_validate_params(eng)
+        else:
+            heapprops.verify_program_run(eng, rerun=(which == "rerun"))
+    except Unsupported as e:
+        out["unsupported"] = str(e)
+    except Exception as e:
+        import traceback
+
+        out["error"] = "%s: %s\n%s" % (type(e).__name__, e, traceback.format_exc()[-1500:])
+    for r in eng.results:
+        rec = {k: v for k, v in r.items() if k not in ("model_obj", "state")}
+        rec.setdefault("clause", r.get("kind"))
+        out["records"].append(rec)
+    out["wall_s"] = round(time.time() - t0, 2)
+    return out
+
+
+def lemma_records():
+    """pure lemmas over the heap contracts"""
+    import z3
+    from . import heapprops as H, smt
+    from .engine import Engine
+
+    recs = []
+    smt.QUANT["on"] = True
+    eng = Engine(Repo(REPO), {}, {})
+    h = H.Heap.fresh("lem")
+    inv = H.Inv(eng, h)
+
+    def add(name, hyps, goal, clause):
+        v = smt.check(hyps, goal)
+        recs.append({"name": name, "status": v.status, "backend": v.backend, "time_s": round(v.time_s, 3), "clause": clause,
+                     "function": "lemma over the contracts of Command.run / Program.run", "goal": str(goal)[:300], "reason": v.reason})
+
+    c = z3.Int("lc")
+    allfin = z3.ForAll([c], z3.Implies(H.IS_COMMAND(c), h.fin(eng, c)))
+    # RANK: when every command is finished, the finishing timestamps are a strict rank of the reference graph
+    a, b = z3.Ints("la lb")
+    add("lemma/RANK: Inv and all finished => ts is a strict rank of refs", [inv, allfin, H.IS_COMMAND(a), H.REFS(a, b)], h.ts(b) < h.ts(a), "acyclic")
+    # hence no reference cycle of length 1..5 among commands (the property's range), i.e. a cyclic model never ends all-finished
+    for k in range(1, 6):
+        xs = [z3.Int("cy%d" % i) for i in range(k)]
+        cyc = [H.IS_COMMAND(x) for x in xs] + [H.REFS(xs[i], xs[(i + 1) % k]) for i in range(k)]
+        add("lemma/NO-CYCLE-%d: Inv and all finished => no reference cycle of length %d" % (k, k), [inv, allfin] + cyc, z3.BoolVal(False), "acyclic")
+    # ONCE: at a quiescent heap (nothing running) finished <=> executed exactly once, unfinished <=> never executed
+    add("lemma/ONCE: Inv, nothing running => cnt is 1 on finished and 0 on unfinished commands",
+        [inv, H.IS_COMMAND(a), z3.Not(h.running(eng, a))], z3.And(z3.Implies(h.fin(eng, a), h.cnt(a) == 1), z3.Implies(z3.Not(h.fin(eng, a)), h.cnt(a) == 0)), "once")
+    # vacuity: the invariant is satisfiable together with a finished and an unfinished command
+    s = z3.Solver()
+    s.set("rlimit", 8000000)
+    s.add(inv, H.IS_COMMAND(a), H.IS_COMMAND(b), h.fin(eng, a), z3.Not(h.fin(eng, b)), a != b)
+    r = s.check()
+    recs.append({"name": "vacuity/Inv-satisfiable", "status": "unsat" if str(r) in ("sat", "unknown") else "sat", "backend": "z3",
+                 "time_s": 0, "clause": "cover", "function": "heap invariant", "goal": "Inv has a model with finished and unfinished commands (%s)" % r})
+    smt.QUANT["on"] = False
+    return recs
+
+
+def heap_property(prop, tier, seed):
+    from concurrent.futures import ProcessPoolExecutor
+    from . import progcases, heapprops
+
+    root = REPO
+    rep = Report(prop, tier, seed, "proof", "./check %s --tier %s" % (prop, tier))
+    rep.ledger_promote = True
+    rep.trusted = [
+        "plugin contract of Command.execute (assumed for third-party plugins; for the built-ins it rests on touches-all-refs and on `.result` being the only call that reaches other commands): requires Inv, unfinished, running; ensures Inv, Mono, every referenced command finished",
+        heapprops.CLASS_INV_NOTE,
+        "behavioural contract of Parameter.clean (pure, raises only the parameter-error family): proved per class under C20",
+        "A-LOCALS: operations on freshly created local list/dict/set objects with hashable keys raise nothing and have no effect outside them",
+        "ghost state: cnt(c) counts completed executions (incremented at execute's normal return), ts/clock are finishing timestamps",
+        "A-REC: recursion depth is not modelled (bounded by the number of commands: re-entering a running command raises at once)",
+    ]
+    which = ["run", "result", "validate", "program", "rerun"]
+    with ProcessPoolExecutor(max_workers=5) as ex:
+        results = list(ex.map(_verify_heap, [(w, root) for w in which]))
+    for out in results:
+        if out["error"]:
+            rep.errors.append("%s: %s" % (out["command"], out["error"]))
+            continue
+        if out["function"]:
+            rep.functions.append(out["function"])
+        for r in out["records"]:
+            rep.add_vc(r["name"], r["status"], r.get("function"), r.get("clause"), r.get("backend"), r.get("time_s", 0),
+                       detail={"trail": r.get("trail"), "goal": r.get("goal"), "reason": r.get("reason")})
+            if r["status"] == "sat":
+                rep.violations.append({"obligation": r["name"], "function": r.get("function"), "how": "counter-model (quantified heap; not concretised)",
+                                       "detail": {"trail": r.get("trail"), "goal": r.get("goal")}, "solver_output": "sat (%s)" % r.get("backend"), "confirmed": False})
+            elif r["status"] != "unsat":
+                rep.undecided.append({"obligation": r["name"], "reason": r.get("reason") or "unknown"})
+        if out["unsupported"]:
+            rep.undecided.append({"obligation": "%s/*" % out["command"], "reason": "unsupported construct: %s" % out["unsupported"]})
+        for r in out["records"][:1]:
+            rep.samples.append({"obligation": r["name"], "clause": r.get("clause"), "goal": r.get("goal"), "verdict": r["status"]})
+    for r in lemma_records():
+        rep.add_vc(r["name"], r["status"], r["function"], r["clause"], r["backend"], r["time_s"], detail={"goal": r["goal"]})
+        if r["status"] == "sat":
+            rep.violations.append({"obligation": r["name"], "how": "lemma refuted", "detail": {"goal": r["goal"]}, "confirmed": False})
+        elif r["status"] != "unsat":
+            rep.undecided.append({"obligation": r["name"], "reason": r.get("reason")})
+    if prop == "C01":
+        # touches-all-refs of the built-in execute bodies (the part of the plugin contract that is proved)
+        repo = Repo(root)
+        SPECS, classes = registry.load(repo)
+        names, clauses = cmdprops.SELECT["C01cmd"]
+        for out in cmdprops.verify_commands(list(names), root):
+            if out["error"]:
+                rep.errors.append("%s: %s" % (out["command"], out["error"]))
+                continue
+            rep.functions.append(out["function"])
+            for r in out["records"]:
+                if r["clause"] in clauses:
+                    rep.add_vc(r["name"], r["status"], r.get("function"), r["clause"], r.get("backend"), r.get("time_s", 0), detail={"trail": r.get("trail")})
+                    if r["status"] != "unsat":
+                        rep.violations.append({"obligation": r["name"], "how": "event-log", "detail": {"trail": r.get("trail")}, "confirmed": False})
+            if out["unsupported"]:
+                rep.undecided.append({"obligation": "%s.execute/*" % out["command"], "reason": "unsupported construct: %s" % out["unsupported"]})
+    # ---- bounded: every small graph on the real code
+    t0 = time.time()
+    cases = progcases.graph_cases(3 if tier == "quick" else 4, tier, seed)
+    outs = progcases.run_real(cases, root)
+    want = {"C01": {"once", "memo", "finished", "all-finished", "raises_only"}, "C14": {"reentrancy", "all-finished"}}[prop]
+    distinct, fails = set(), 0
+    for c, o in zip(cases, outs):
+        if (prop == "C01") == c["meta"]["cyclic"] and prop == "C01":
+            continue
+        if prop == "C14" and not c["meta"]["cyclic"]:
+            continue
+        distinct.add(json.dumps([c["commands"], c["mode"]], sort_keys=True))
+        bad = progcases.judge_graph(c, o)
+        if any(b[0] in ("harness-error", "load") for b in bad):
+            rep.errors.append("graph battery: %s" % (bad[0],))
+            continue
+        rel = [b for b in bad if b[0] in want]
+        if rel:
+            fails += 1
+            rep.violations.append({"obligation": "mpilot/program.py::Program.run/bounded:%s" % rel[0][0], "function": "mpilot/program.py::Program.run",
+                                   "how": "bounded-concrete", "case": c, "real": o, "violated": [b[0] for b in bad], "violated_detail": bad, "confirmed": True})
+    rep.bounded = {"label": "bounded (never counted as proved)", "evaluations": len(cases), "distinct_nontrivial": len(distinct), "failures": fails,
+                   "wall_s": round(time.time() - t0, 1),
+                   "rule": "digraphs on <=%d commands (self-loops, 2-cycles, longer cycles, tails; up to 4 edges) realised through direct, list, "
+                           "nested-list and mixed references, shuffled textual order, built through the API and from source text over counting "
+                           "stub commands; actions run, run, result; non-trivial = the graphs in this property's quantifier (acyclic for C01, "
+                           "cyclic for C14); distinct by program" % (3 if tier == "quick" else 4)}
+
+    def rerun(w):
+        if not w or w.get("kind") != "program-case":
+            return None
+        o = progcases.run_real([w["case"]], root)[0]
+        return [b[0] for b in progcases.judge_graph(w["case"], o)]
+
+    rep.rerun_witness = rerun
     return rep
